@@ -10,3 +10,28 @@
 (define-fun-rec filtLen ((e Any) (K Int) (N Time) (c Slice_Any) (i Int)) Int
   (ite (<= i 0) 0
        (+ (filtLen e K N c (- i 1)) (ite (keepW e K N (select (arr_Any c) (- i 1))) 1 0))))
+; item equality as used by Collection.Contains: System equality after conversion when the
+; probe converts, structural proto equality otherwise
+(define-fun eqItem ((v Any) (x Any)) Bool
+  (ite (fromOk x) (and (fromOk v) (sysEq (fromS v) (fromS x)))
+       (and (isProtoMsg x) (isProtoMsg v) (protoEq v x))))
+(define-fun containsS ((c Slice_Any) (x Any)) Bool
+  (exists ((k!c Int)) (and (<= 0 k!c) (< k!c (len_Any c)) (eqItem (select (arr_Any c) k!c) x))))
+; positional subsetting: take(n) keeps the first clampN(n) items, skip(n) drops them
+(define-fun clampN ((n Int) (len Int)) Int (ite (<= n 0) 0 (ite (>= n len) len n)))
+; select(e): per-item output; an item whose evaluation fails with ErrInvalidField is skipped
+(declare-fun isFieldErr (Err) Bool)
+(define-fun selOut ((e Any) (K Int) (N Time) (x Any)) Slice_Any (evalRes e K N (single x)))
+(define-fun selErr ((e Any) (K Int) (N Time) (x Any)) Err (evalErr e K N (single x)))
+(define-fun selLen ((e Any) (K Int) (N Time) (x Any)) Int
+  (ite (= (selErr e K N x) 0) (len_Any (selOut e K N x)) 0))
+; total length of the outputs of the first i items
+(define-fun-rec concatLen ((e Any) (K Int) (N Time) (c Slice_Any) (i Int)) Int
+  (ite (<= i 0) 0 (+ (concatLen e K N c (- i 1)) (selLen e K N (select (arr_Any c) (- i 1))))))
+; number of skipped (field-error) items among the first i
+(define-fun-rec fieldErrCount ((e Any) (K Int) (N Time) (c Slice_Any) (i Int)) Int
+  (ite (<= i 0) 0 (+ (fieldErrCount e K N c (- i 1)) (ite (= (selErr e K N (select (arr_Any c) (- i 1))) 0) 0 1))))
+; exclude(d): keep the items of c equal to no item of d
+(define-fun keepE ((d Slice_Any) (x Any)) Bool (not (containsS d x)))
+(define-fun-rec exclLen ((d Slice_Any) (c Slice_Any) (i Int)) Int
+  (ite (<= i 0) 0 (+ (exclLen d c (- i 1)) (ite (keepE d (select (arr_Any c) (- i 1))) 1 0))))
